@@ -165,7 +165,7 @@ EVENTS_Q = ['f()', "f('pos')", 'f(b=2)', 's:f()', 's/t:f()', 'consumer()', "cons
 
 def bound(tier):
   return '%d configurations x call sequences depth<=%d over %d events' % (
-      len(CONFIGS), 3 if tier == 'quick' else 4, len(EVENTS_Q) if tier == 'quick' else len(EVENTS))
+      len(CONFIGS), 4 if tier == 'quick' else 5, len(EVENTS_Q) if tier == 'quick' else len(EVENTS))
 
 
 def do_event(ev):
@@ -448,7 +448,7 @@ def run(ctx):
   res = core.Result()
   mod = __import__('checks.c07', fromlist=['x'])
   evs = EVENTS_Q if ctx.quick else list(EVENTS) + list(REBIND)
-  depth = 3 if ctx.quick else 4
+  depth = 4 if ctx.quick else 5
   res.extra['alphabet'] = evs
   for cname in CONFIGS:
     ctx.close()  # workers must see World.CNAME
